@@ -26,3 +26,5 @@ func IDs() []string {
 	}
 	return out
 }
+
+func init() { eng.AnchorHosts = anchorHosts }
